@@ -967,3 +967,108 @@ Proof.
   { rewrite <- (map_map vname (cx_exported cx)), N, map_map. apply map_ext_in. exact EX. }
   repeat split; auto.
 Qed.
+
+(* ---------------------------------------------------------------------------------- *)
+(* Derived (boolean) accessors agree with the lists the same data offers               *)
+(* ---------------------------------------------------------------------------------- *)
+Lemma is_nil_false {A} (l : list A) : negb (is_nil l) = true <-> l <> [].
+Proof. destruct l; simpl; split; congruence. Qed.
+
+Theorem flags_spec d :
+  (has_params d = true <-> dparams d <> []) /\
+  (has_returns d = true <-> dreturns d <> []) /\
+  (return_statement d = B "return" <-> dreturns d <> []) /\
+  (is_variadic d = true <-> dparams d <> [] /\ dvariadic d = true) /\
+  (* IsVariadic <-> some element of ArgList / ArgCallList carries "..." (then it is the last one) *)
+  (is_variadic d = true <-> existsb a_ell (arg_list d) = true) /\
+  (is_variadic d = true <-> existsb snd (arg_call_list d) = true) /\
+  (* ReturnsError <-> some result's TYPE STRING is "error" *)
+  (returns_error d = true <-> exists v, In v (dreturns d) /\ print_rty (vrty v) = B "error") /\
+  (* ... in particular when a result is the predeclared error *)
+  ((exists v, In v (dreturns d) /\ vty v = TNamed None (B "error") []) -> returns_error d = true) /\
+  (accepts_context d = true <-> exists v r, dparams d = v :: r /\ print_rty (vrty v) = B "context.Context").
+Proof.
+  assert (EX : forall (f : nat -> bool) (l : list var_) k,
+             existsb (fun b => b) (mapi_from k (fun j _ => f j) l) = true <-> exists j, j < length l /\ f (k + j) = true).
+  { intros f l. induction l as [|x l IH]; intros k; simpl.
+    - split; [discriminate | intros (j & H & _); lia].
+    - rewrite orb_true_iff, IH. split.
+      + intros [H|(j & Hj & H)]; [exists 0; rewrite Nat.add_0_r; split; [lia | exact H] | exists (S j); rewrite <- plus_n_Sm; split; [lia | exact H]].
+      + intros ([|j] & Hj & H); [left; now rewrite Nat.add_0_r in H | right; exists j; rewrite <- plus_n_Sm in H; split; [lia | exact H]]. }
+  assert (PV : is_variadic d = true <-> exists j, j < length (dparams d) /\ pvariadic d (0 + j) = true).
+  { unfold is_variadic, pvariadic, is_last. rewrite andb_true_iff, is_nil_false. split.
+    - intros [NE V]. destruct (dparams d) as [|x l] eqn:E; [congruence|]. exists (length l). simpl. rewrite V, Nat.eqb_refl. split; [lia | reflexivity].
+    - intros (j & Hj & H). apply andb_true_iff in H as [V _]. split; [intros E; rewrite E in Hj; simpl in Hj; lia | exact V]. }
+  unfold has_params, has_returns, return_statement.
+  split; [apply is_nil_false|]. split; [apply is_nil_false|]. split.
+  { unfold has_returns. destruct (dreturns d); simpl; split; try congruence. intros H; vm_compute in H; discriminate. }
+  split. { unfold is_variadic. rewrite andb_true_iff, is_nil_false. reflexivity. }
+  split.
+  { rewrite PV. unfold arg_list, mapi. rewrite <- (EX (fun j => pvariadic d j) (dparams d) 0).
+    assert (M : forall l k, existsb a_ell (mapi_from k (fun j v => param_method_arg v (pvariadic d j)) l)
+                          = existsb (fun b => b) (mapi_from k (fun j _ => pvariadic d j) l)).
+    { induction l as [|x l IH]; intros k; simpl; [reflexivity|]. rewrite IH. f_equal.
+      unfold param_method_arg. destruct (pvariadic d k); reflexivity. }
+    rewrite M. reflexivity. }
+  split.
+  { rewrite PV. unfold arg_call_list, mapi. rewrite <- (EX (fun j => pvariadic d j) (dparams d) 0).
+    assert (M : forall l k, existsb snd (mapi_from k (fun j v => param_call_name true v (pvariadic d j)) l)
+                          = existsb (fun b => b) (mapi_from k (fun j _ => pvariadic d j) l)).
+    { induction l as [|x l IH]; intros k; simpl; [reflexivity|]. now rewrite IH. }
+    rewrite M. reflexivity. }
+  split.
+  { unfold returns_error. rewrite existsb_exists. split; intros (v & Hv & H); exists v; split; auto; now apply seqb_eq. }
+  split.
+  { intros (v & Hv & T). unfold returns_error. apply existsb_exists. exists v. split; [exact Hv|].
+    unfold vrty. rewrite T. vm_compute. reflexivity. }
+  unfold accepts_context. destruct (dparams d) as [|v r]; split.
+  - discriminate.
+  - intros (v & r & H & _). discriminate.
+  - intros H. exists v, r. split; [reflexivity | now apply seqb_eq].
+  - intros (v' & r' & H & P). injection H as <- <-. now apply seqb_eq.
+Qed.
+
+(* ---------------------------------------------------------------------------------- *)
+(* ArgCallListSlice: the elements of index in [start, end)                             *)
+(* ---------------------------------------------------------------------------------- *)
+Lemma nth_error_skipn' {A} s : forall (l : list A) i, nth_error (skipn s l) i = nth_error l (s + i).
+Proof. induction s as [|s IH]; intros [|x l] i; simpl; auto. now destruct i. Qed.
+Lemma nth_error_firstn_lt {A} k : forall (l : list A) i, i < k -> nth_error (firstn k l) i = nth_error l i.
+Proof.
+  induction k as [|k IH]; intros l i H; [lia|]. destruct l as [|x l]; simpl; [now destruct i|].
+  destruct i as [|i]; simpl; [reflexivity | apply IH; lia].
+Qed.
+Lemma mapi_from_length {A B} (f : nat -> A -> B) l : forall k, length (mapi_from k f l) = length l.
+Proof. induction l; intros k; simpl; auto. Qed.
+
+(* the end index actually used: a negative end means "to the end"; end = 1 on a method without
+   parameters is read as 0 (special case in the code) *)
+Definition eff_end (n : nat) (e : option nat) : nat :=
+  match e with None => n | Some e => if Nat.eqb e 1 && Nat.eqb n 0 then 0 else e end.
+
+Theorem slice_spec d s e (ell : bool) :
+  let n := length (dparams d) in
+  let e' := eff_end n e in
+  let full := if ell then arg_call_list d else arg_call_list_no_ellipsis d in
+  (s <= e' <= n -> exists l, arg_call_list_slice d s e ell = Some l /\ length l = e' - s /\
+                             forall i, i < e' - s -> nth_error l i = nth_error full (s + i)) /\
+  (~ (s <= e' <= n) -> arg_call_list_slice d s e ell = None).
+Proof.
+  intros n e' full. unfold arg_call_list_slice. fold n.
+  assert (EE : (let e0 := match e with None => n | Some e0 => e0 end in if Nat.eqb e0 1 && Nat.eqb n 0 then 0 else e0) = e').
+  { unfold e', eff_end. destruct e as [e0|]; simpl; [reflexivity|].
+    destruct (Nat.eqb n 1 && Nat.eqb n 0) eqn:X; [|reflexivity].
+    apply andb_true_iff in X as [X1 X2]. apply Nat.eqb_eq in X1, X2. lia. }
+  cbv zeta in EE. rewrite EE.
+  set (L := mapi (fun k v => param_call_name ell v (pvariadic d k)) (dparams d)).
+  assert (FL : L = full) by (unfold L, full, arg_call_list, arg_call_list_no_ellipsis; destruct ell; reflexivity).
+  assert (LL : length L = n) by (unfold L, mapi; apply mapi_from_length).
+  split.
+  - intros [H1 H2]. assert (B1 : Nat.leb s e' = true) by (apply Nat.leb_le; exact H1).
+    assert (B2 : Nat.leb e' n = true) by (apply Nat.leb_le; exact H2).
+    rewrite B1, B2. simpl. eexists. split; [reflexivity|]. split.
+    + rewrite firstn_length, skipn_length, LL. lia.
+    + intros i Hi. rewrite nth_error_firstn_lt by exact Hi. rewrite nth_error_skipn', FL. reflexivity.
+  - intros H. destruct (Nat.leb s e') eqn:B1; [|reflexivity]. destruct (Nat.leb e' n) eqn:B2; [|reflexivity].
+    apply Nat.leb_le in B1, B2. exfalso. apply H. lia.
+Qed.
